@@ -137,6 +137,18 @@ func (t *ltree) catalogue(r *rand.Rand, max int) []*Call {
 			add(c)
 		}
 	}
+	// the MOUNT program: paths through directories whose children have smaller and larger numbers than they
+	for _, path := range []string{"/", "", "/P", "/P/s", "/P/s/a", "/Q", "/Q/s", "/Q/a", "/P/..", "/P/s/..", "/P/./s", "/nope", "/P/nope/x", "P/s"} {
+		c := NewCall("MNT")
+		c.Name = path
+		add(c)
+		u := NewCall("UMNT")
+		u.Name = path
+		add(u)
+	}
+	for _, proc := range []string{"DUMP", "EXPORT", "UMNTALL"} {
+		add(NewCall(proc))
+	}
 	for _, f := range t.files {
 		if f == "" {
 			continue
